@@ -10,4 +10,4 @@ else
   (cd "$S/repo" && patch -p1 -s < "$1"); shift 1
 fi
 [ "$1" = "--" ] && shift
-VERIF_REPO="$S/repo" /verif/bin/govc "$@"
+GOVC_EVIDENCE_DIR="$S/evidence" GOVC_REPLAY_DIR="$S/replays" VERIF_REPO="$S/repo" /verif/bin/govc "$@"
